@@ -9,6 +9,7 @@ def run(F, G, tier, seed):
     writer.run_escape(chk, F)
     writer.run_attrorder(chk, F)
     writer.run_label_guards(chk, F)
+    writer.run_textedit(chk, F)
     return chk.finish(
         "Decides reader/writer agreement: every member the reading side fills is read by the writer and written under "
         "a label kind the reader accepts; endpoints, element multiplicity and order; output only through libxml2's "
